@@ -345,6 +345,8 @@ func (a *adapter) mutate(m string, b *types.Block) {
 		h.Time += k * round
 	case "extra_long":
 		h.Extra = strings.Repeat("x", 257)
+	case "extra_long_multibyte":
+		h.Extra = strings.Repeat("\u6c49", 200) // 200 characters, 600 bytes
 	case "extra_other":
 		h.Extra = "T2"
 	case "txs_drop":
@@ -353,6 +355,11 @@ func (a *adapter) mutate(m string, b *types.Block) {
 		b.Txs = append(b.Txs, b.Txs[1])
 	case "txs_swap":
 		b.Txs = types.Transactions{b.Txs[1], b.Txs[0]}
+	case "txs_gas_one":
+		b.Txs[0].SetGasUsed(b.Txs[0].GasUsed() + 1000)
+	case "txs_gas_shift":
+		b.Txs[0].SetGasUsed(b.Txs[0].GasUsed() + 1000)
+		b.Txs[1].SetGasUsed(b.Txs[1].GasUsed() - 1000)
 	case "logs_drop":
 		b.ChangeLogs = b.ChangeLogs[:len(b.ChangeLogs)-1]
 	case "confirm_garbage":
